@@ -7,6 +7,7 @@ import (
 	"encoding/binary"
 	"encoding/hex"
 	"fmt"
+	"io"
 	"sort"
 	"strings"
 
@@ -194,7 +195,7 @@ type seqDetail struct {
 
 // runSeq applies a sequence to a fresh frame of the case, checking the flag invariant after every
 // step and encode / declared length / round trip at the end.
-func runSeq(c *mon.Ctx, cs gen.Case, seq []step, salt int) {
+func runSeq(c *mon.Ctx, cs gen.Case, seq []step, salt int, midEncode, flagsOnly bool) {
 	a := cs.Frame
 	op := a.Msg.Opcode()
 	f := bridge.ToLib(a, false, nil)
@@ -219,6 +220,17 @@ func runSeq(c *mon.Ctx, cs gen.Case, seq []step, salt int) {
 				seqDetail{cs.Kind, a.Version.String(), names(i + 1), "header flags do not reflect the optional body parts present", fmt.Sprintf("%#02x", byte(f.Header.Flags)), fmt.Sprintf("%#02x", byte(want)), c.Seed, ""})
 			return
 		}
+		if midEncode && (salt+i)%2 == 0 {
+			// the frame is sent (or measured) in the middle of the sequence and mutated again afterwards:
+			// nothing of that encode may stick to the frame
+			_ = codec.EncodeFrame(f, io.Discard)
+			c.Count("encodes_between_mutators", 1)
+		}
+	}
+	if flagsOnly {
+		c.Count("flag_only_sequences_ok", 1)
+		c.Distinct(fmt.Sprintf("%s|%v|flags-only|%d|%#02x", cs.Kind, a.Version, len(seq), byte(f.Header.Flags)))
+		return
 	}
 	// the expected abstract frame
 	exp := *a
@@ -359,7 +371,7 @@ func run(c *mon.Ctx) {
 				for i, j := range idx {
 					seq[i] = steps[j]
 				}
-				runSeq(c, cs, seq, len(idx))
+				runSeq(c, cs, seq, len(idx), false, false)
 			}
 			if len(idx) == depth {
 				return
@@ -379,7 +391,27 @@ func run(c *mon.Ctx) {
 			for j := range seq {
 				seq[j] = steps[r.Intn(len(steps))]
 			}
-			runSeq(c, cs, seq, r.Intn(50))
+			runSeq(c, cs, seq, r.Intn(50), i%2 == 1, false)
+		}
+		// versions without custom payloads and warnings (v2, v3): the mutators are still callable; such a
+		// frame is not version-valid any more (the encoder may refuse it), but the flags must still say
+		// what the body holds after every step
+		if !v.HasPayloadAndWarnings() {
+			var all []step
+			for _, st := range allSteps {
+				if (st.kind == 'W' && !k.Response) || (st.kind == 'I' && k.Response) {
+					continue
+				}
+				all = append(all, st)
+			}
+			for i := 0; i < n/4; i++ {
+				r := mon.NewRand(c.Seed, 0xC22<<32|uint64(pi)<<16|uint64(i))
+				seq := make([]step, 1+r.Intn(8))
+				for j := range seq {
+					seq[j] = all[r.Intn(len(all))]
+				}
+				runSeq(c, cs, seq, r.Intn(50), false, true)
+			}
 		}
 	})
 	c.Set("kind_version_pairs", len(pairs))
